@@ -2,7 +2,7 @@
 from frontcheck import *
 
 PROP = "C10"
-THEOREMS = ["C10", "C10Load", "C10Incl"]
+THEOREMS = ["C10", "C10Load", "C10Incl", "C10InclSpell"]
 
 
 def main(tier, seed, replay=None):
